@@ -43,6 +43,9 @@ func runC05() *RunResult {
 
 		t.ops = append(t.ops, &Op{Kind: opParse, Path: p, Cfg: cfg, Slot: 0})
 		ncalls := 2 + rn(7)
+		if rn(25) == 24 {
+			ncalls = 17 + rn(50) // now and then a long history (the 17th, 33rd, 65th call)
+		}
 		for c := 0; c < ncalls; c++ {
 			switch rn(10) {
 			case 0:
